@@ -434,5 +434,9 @@ func Leaked() []string {
 	for _, st := range Stacks("synctest.Run(", "testing.testingSynctestTest(", "synctest.testingSynctestTest") {
 		out = append(out, TopFrames(st, 4))
 	}
+	// the dump lists goroutines in an order that depends on goroutine ids, i.e.
+	// on what ran earlier in the process: sort, so that the first entry (used as
+	// the violation key) is the same in a batch and in a fresh replay
+	sort.Strings(out)
 	return out
 }
